@@ -97,3 +97,14 @@ let () =
       match v with
       | List [a; b] -> bit (Tables.isomorphic_to (tables_of a) (tables_of b))
       | _ -> raise (Shape "iso args"))
+
+(* emitbash "command" "signature line" <dfa> <ordmain> <ordsubs> ((id ...)...)
+     -> (ok "script text" valid) | (panic "site")          Model.EmitBash.script_of_dfa *)
+let () =
+  register "emitbash" (fun v ->
+      match v with
+      | List [cmd; sg; d; om; os; gs] ->
+          let groups = List.map (fun g -> List.map n_ (list_ g)) (list_ gs) in
+          res_to (fun (s, valid) -> List [Atom "ok"; ss s; bit valid])
+            (Extracted.EmitBash.script_of_dfa (cl (string_ cmd)) (cl (string_ sg)) (cdfa_of d) (ord_of om) (ord_subs_of os) groups)
+      | _ -> raise (Shape "emitbash args"))
